@@ -357,6 +357,30 @@ fn do_has_held<T: R9>(w: &mut World, excl: bool) -> Result<(Out, Option<u64>), S
         }
         Ok(())
     };
+    // the same queries made from a destructor that runs while the thread unwinds from a panic (no guard alive):
+    // unwinding changes nothing about what the world holds
+    {
+        struct Probe<'a, T: R9>(&'a World, &'a std::cell::Cell<[bool; 4]>, std::marker::PhantomData<T>);
+        impl<'a, T: R9> Drop for Probe<'a, T> {
+            fn drop(&mut self) {
+                let w = self.0;
+                let a = w.try_fetch::<T>().is_some();
+                let b = w.try_fetch_mut::<T>().is_some();
+                let c = w.try_fetch_by_id::<T>(ResourceId::new::<T>()).is_some();
+                let d = w.has_value::<T>() && std::thread::panicking();
+                self.1.set([a, b, c, d]);
+            }
+        }
+        let seen = std::cell::Cell::new([false; 4]);
+        let _ = catch_unwind(AssertUnwindSafe(|| {
+            let _p = Probe::<T>(w, &seen, std::marker::PhantomData);
+            std::panic::resume_unwind(Box::new(0u8));
+        }));
+        let got = seen.get();
+        if got != [true; 4] {
+            return Err(format!("fetch-disagrees: queried from a destructor while the thread unwinds, a present slot with no guard alive answers try_fetch={} try_fetch_mut={} try_fetch_by_id={} has_value(while panicking)={}", got[0], got[1], got[2], got[3]));
+        }
+    }
     let (a, b) = if excl {
         let g = w.fetch_mut::<T>();
         let r = (w.has_value::<T>(), w.has_value_raw(ResourceId::new::<T>()));
@@ -917,4 +941,98 @@ pub fn zoo_sweep(depth: usize, col: &mut Collector) -> (u64, u64) {
     n += zoo_type::<Vec<Box<dyn Resource>>>(depth, col);
     n += zoo_type::<std::sync::Mutex<u64>>(depth, col);
     (9, n)
+}
+
+// ---------------------------------------------------------------------------
+// fetches made from a destructor while the thread unwinds and a CONFLICTING guard is alive.  On a correct tree the
+// fetch panics (a second panic during unwinding: the process aborts), so every case runs in its own child process.
+// What must never happen is an ANSWER: "absent" (the slot is present) or a guard (the conflicting one is alive).
+// ---------------------------------------------------------------------------
+
+pub const UNWIND_CASES: usize = 8;
+pub fn unwind_case_label(k: usize) -> String {
+    let (held, q) = (k / 4, k % 4);
+    format!("{} guard alive, {} from a destructor during unwinding", if held == 0 { "exclusive" } else { "shared" }, ["try_fetch_mut", "try_fetch_mut_by_id", "try_fetch", "try_fetch_by_id"][q])
+}
+pub fn unwind_probe_child(k: usize) -> i32 {
+    use std::io::Write;
+    struct P<'a>(&'a World, usize);
+    impl<'a> Drop for P<'a> {
+        fn drop(&mut self) {
+            let w = self.0;
+            let id = ResourceId::new::<u64>();
+            let some = match self.1 {
+                0 => w.try_fetch_mut::<u64>().is_some(),
+                1 => w.try_fetch_mut_by_id::<u64>(id).is_some(),
+                2 => w.try_fetch::<u64>().is_some(),
+                _ => w.try_fetch_by_id::<u64>(id).is_some(),
+            };
+            println!("ANSWER {}", if some { "guard" } else { "absent" });
+            let _ = std::io::stdout().flush();
+        }
+    }
+    let mut w = World::empty();
+    w.insert(5u64);
+    let (held, q) = (k / 4, k % 4);
+    if held == 1 && q >= 2 {
+        // shared + shared is allowed: the answer must be a guard
+        let _g = w.fetch::<u64>();
+        let _ = catch_unwind(AssertUnwindSafe(|| {
+            let _p = P(&w, q);
+            std::panic::resume_unwind(Box::new(0u8));
+        }));
+        println!("DONE");
+        return 0;
+    }
+    println!("START");
+    let _ = std::io::stdout().flush();
+    if held == 0 {
+        let _g = w.fetch_mut::<u64>();
+        let _ = catch_unwind(AssertUnwindSafe(|| {
+            let _p = P(&w, q);
+            std::panic::resume_unwind(Box::new(0u8));
+        }));
+    } else {
+        let _g = w.fetch::<u64>();
+        let _ = catch_unwind(AssertUnwindSafe(|| {
+            let _p = P(&w, q);
+            std::panic::resume_unwind(Box::new(0u8));
+        }));
+    }
+    println!("DONE");
+    0
+}
+/// parent side: number of cases run
+pub fn unwind_probe(col: &mut Collector) -> u64 {
+    let exe = match std::env::current_exe() {
+        Ok(e) => e,
+        Err(_) => return 0,
+    };
+    let mut n = 0;
+    for k in 0..UNWIND_CASES {
+        let out = match std::process::Command::new(&exe).arg("unwind-probe").arg(k.to_string()).stderr(std::process::Stdio::null()).output() {
+            Ok(o) => o,
+            Err(_) => continue,
+        };
+        n += 1;
+        let text = String::from_utf8_lossy(&out.stdout).to_string();
+        let answer = text.lines().find(|l| l.starts_with("ANSWER")).map(|l| l.to_string());
+        let allowed_guard = k / 4 == 1 && k % 4 >= 2;
+        let bad = match (&answer, allowed_guard) {
+            (Some(a), true) => a != "ANSWER guard",
+            (Some(_), false) => true,
+            (None, true) => true,
+            (None, false) => false,
+        };
+        if bad {
+            col.add(Finding {
+                prop: "C09".into(),
+                sig: "fetch-disagrees-while-unwinding".into(),
+                msg: format!("{}: the fetch of a present slot answered {:?} (expected: {})", unwind_case_label(k), answer, if allowed_guard { "a guard" } else { "no answer - the conflicting guard rules the fetch out, it panics" }),
+                replay: json!({"kind":"c09-unwind-probe","case":k}),
+                size: 1,
+            });
+        }
+    }
+    n
 }
